@@ -9,6 +9,7 @@ A property module provides
   vacuity(agg, tier)      -> list of strings (problems) -- optional
 """
 import hashlib
+from fractions import Fraction
 import importlib
 import json
 import multiprocessing as mp
@@ -64,7 +65,7 @@ def fp(*vals):
 
 def add_violation(res, subcheck, case, expected=None, observed=None, msg="", kind="wrong_value"):
     if len(res["violations"]) < MAX_VIOL_PER_SHARD:
-        res["violations"].append({"subcheck": subcheck, "case": case, "expected": _j(expected),
+        res["violations"].append({"subcheck": subcheck, "case": _j(case), "expected": _j(expected),
                                   "observed": _j(observed), "msg": msg, "kind": kind})
     bump(res["extra"], "violations_total")
 
@@ -73,6 +74,8 @@ def _j(x):
     """make JSON-able"""
     if x is None or isinstance(x, (bool, int, str)):
         return x
+    if isinstance(x, Fraction):
+        return str(x)          # "p/q" (or "p"): parses back with Fraction(...)
     if isinstance(x, float):
         return x if x == x and abs(x) != float("inf") else repr(x)
     if isinstance(x, complex):
